@@ -496,7 +496,7 @@ func runJSON(c JSONCase) *vt.Outcome {
 		if !changed {
 			continue
 		}
-		r := nc.check(o)
+		r := nc.check(nil)
 		if r == nil || r.locus() != fail.locus() {
 			if !vt.IsKnown(n.sig) {
 				o.Fail = vt.Failf(n.sig, "[%s at document %d] %s", fail.kind, fail.idx, fail.msg)
